@@ -850,6 +850,41 @@ func driverCreateIsCreateIfAbsent(w *World, cr *ssa.Function) (bool, string) {
 			returnsExists = returnsExists || globalLoaded(f, "ErrReleaseExists")
 		}
 	}
+	// k8s drivers: inside the region entered through IsAlreadyExists(err) == true every return yields ErrReleaseExists
+	g := FullGraph(cr)
+	for _, c := range callInstrs(cr) {
+		cc, ok := c.(*ssa.Call)
+		if !ok {
+			continue
+		}
+		f, _ := calleeOf(cc.Common())
+		if f == nil || f.Name() != "IsAlreadyExists" {
+			continue
+		}
+		for _, e := range condEdges(cc) {
+			if !e.truth {
+				continue
+			}
+			for _, rp := range g.classifyReturns() {
+				rb := rp.Ret.Block()
+				if rp.Pred != nil {
+					rb = rp.Pred
+				}
+				if !edgeDominates(g, e.Edge, rb) {
+					continue
+				}
+				isExists := false
+				if ld, ok := rp.Val.(*ssa.UnOp); ok {
+					if gl, ok := ld.X.(*ssa.Global); ok && gl.Name() == "ErrReleaseExists" {
+						isExists = true
+					}
+				}
+				if !isExists {
+					return false, "on the already-exists edge the driver's Create can return something other than ErrReleaseExists (a duplicate create may report success)"
+				}
+			}
+		}
+	}
 	switch {
 	case usesUpsert != "":
 		return false, "driver Create uses an overwriting primitive (" + usesUpsert + ")"
